@@ -74,7 +74,7 @@ def resreq(rng, spec, p=0.6):
 def proc(rng, spec, name, up, cgrid=GRID):
     d = {'k': 'P', 'n': name, 'c': rng.choice(cgrid), 'up': up, 'res': resreq(rng, spec),
          'alt': rng.choice([None, None, None, 0, 0.5, 2]), 'wod': rng.choice([0, 0.5, 1.5, 3]),
-         'wocap': rng.choice([0, 1, 1, 2]), 'wocost': rng.choice([0, 2, 2, 0.5])}
+         'wocap': rng.choice([0, 1, 1, 2]), 'wocost': rng.choice([0, 2, 2, 0.5, -1.5])}
     if rng.random() < 0.3:
         d['valadd'] = rng.choice([1, 2.5])
     if rng.random() < 0.15:
@@ -480,7 +480,49 @@ def gen_batching(rng):
     return finish(rng, spec, 'batching')
 
 
-PROFILES = {'general': gen_general, 'groups': gen_groups, 'contention': gen_contention, 'buffers': gen_buffers,
+def gen_values(rng):
+    """Value-accounting profile: nested batches, value added on receive/finish, work orders with costs
+    (also negative: a rebate). No buffers/batchers (they count or unpack only the top level of a nested batch)."""
+    spec = {'devs': [], 'groups': [], 'res': {}, 'actions': []}
+    devs = spec['devs']
+    ns = rng.choice([1, 2])
+    for i in range(ns):
+        s = source(rng, f'S{i}', batch_p=0.0)
+        s['val'] = rng.choice([1, 2.5, 0.5])
+        s['batch'] = rng.choice([None, None, 2, [1, 3], {'nest': [2, 1]}, {'nest': [1, 1, 2]}])
+        devs.append(s)
+    prev = [f'S{i}' for i in range(ns)]
+    procs = []
+    for st_ in range(rng.choice([1, 2, 3])):
+        cur = []
+        for w in range(rng.choice([1, 1, 2])):
+            nm = f'P{st_}{w}'
+            d = proc(rng, spec, nm, list(prev), [0, 0, 0.5, 1, 2])
+            d['valadd'] = rng.choice([0, 1, 2.5])
+            d['rvaladd'] = rng.choice([0, 0, 0.5, 1])
+            d['res'] = None
+            d['alt'] = None
+            devs.append(d)
+            cur.append(nm)
+            procs.append(nm)
+        prev = cur
+    devs.append({'k': 'K', 'n': 'K0', 'c': rng.choice([0, 0.5, 1]), 'up': prev})
+    acts = []
+    for _ in range(rng.choice([1, 3, 6])):
+        t = rng.choice(TIMES)
+        pr = rng.choice(PRIOS)
+        r = rng.random()
+        if r < 0.6:
+            acts.append([t, pr, 'wo', rng.choice(procs)])
+        elif r < 0.8:
+            acts.append([t, pr, 'fail', rng.choice(procs), 0])
+        else:
+            acts.append([t, pr, 'restore', rng.choice(procs)])
+    spec['actions'] = acts
+    return finish(rng, spec, 'values')
+
+
+PROFILES = {'values': gen_values, 'general': gen_general, 'groups': gen_groups, 'contention': gen_contention, 'buffers': gen_buffers,
             'noise': lambda r: gen_buffers(r, True), 'interrupt': gen_interrupt, 'batching': gen_batching}
 
 
